@@ -1,6 +1,6 @@
 (* C18/Props.v -- pinned property theorems; nothing but statements closed by `exact`. *)
 From NV.Common Require Import Base.
-From NV.C18 Require Import Model Proofs Inst.
+From NV.C18 Require Import Model Proofs Dijkstra Inst.
 From NV.gen Require Import Gen_C18.
 Open Scope N_scope.
 
@@ -36,4 +36,103 @@ Example C18_find_path_example :
   /\ find_path_with gen_fp_neighbor g (F [(0, 0)] []) 1 3 = PNotFound.
 Proof. vm_compute. repeat split. Qed.
 
+(* find_variable_paths: every returned path is a qualifying walk (each step an existing edge of an
+   allowed type that passes the edge filter, followed in the configured direction; entered nodes
+   pass the node filter, the destination excepted; no node entered twice unless cycles are allowed)
+   with a hop count inside [min_hops, max_hops]; and, unless the max_paths cap was reached, every
+   such walk is returned: the enumeration is exact. *)
+Theorem C18_variable_paths_exact : forall g c from to,
+  match find_variable_paths g c from to with
+  | VOk ps =>
+      node_exists g from = true /\ node_exists g to = true /\
+      (forall p, In p ps ->
+         exists steps, vmin c <= N.of_nat (length steps) /\ N.of_nat (length steps) <= vmax c
+           /\ qwalk g c to (if vcycles c then [] else [from]) from steps /\ end_of from steps = to
+           /\ p = (from :: map fst steps, map snd steps)) /\
+      ((length ps < N.to_nat (vmaxpaths c))%nat ->
+       forall p,
+         (exists steps, vmin c <= N.of_nat (length steps) /\ N.of_nat (length steps) <= vmax c
+           /\ qwalk g c to (if vcycles c then [] else [from]) from steps /\ end_of from steps = to
+           /\ p = (from :: map fst steps, map snd steps)) -> In p ps)
+  | VNoNode n => (node_exists g from = false /\ n = from) \/ (node_exists g from = true /\ node_exists g to = false /\ n = to)
+  | VErr => False
+  end.
+Proof. exact var_paths_exact. Qed.
+
+(* ... and without allow_cycles those walks are simple paths (no node repeated, the start included) *)
+Theorem C18_variable_paths_simple : forall g c to from steps, vcycles c = false ->
+  qwalk g c to [from] from steps -> NoDup (from :: map fst steps).
+Proof.
+  exact (fun g c to from steps Hcy Hq =>
+           NoDup_cons from (fun Hin => proj2 (qwalk_simple g c to Hcy steps [from] from Hq) from Hin (or_introl eq_refl))
+                      (proj1 (qwalk_simple g c to Hcy steps [from] from Hq))).
+Qed.
+
+Example C18_variable_paths_example :
+  let g := G [(1, Some 0); (2, Some 1); (3, Some 0)]
+             [E 1 1 2 true 0 None None; E 2 2 3 false 0 None None; E 3 1 3 true 1 None None; E 4 1 2 true 0 None None] in
+  find_variable_paths g (VC 1 2 0 None 1000 false None) 1 3
+  = VOk [([1; 3], [3]); ([1; 2; 3], [1; 2]); ([1; 2; 3], [4; 2])].
+Proof. vm_compute. reflexivity. Qed.
+
+(* find_weighted_path (the binary-heap Dijkstra as the code does it: lazy deletion of stale entries,
+   strict improvement, exit when the target is popped; outgoing-list neighbour rule regenerated from
+   the source): a returned path is a real walk from `from` to `to` that follows every directed edge
+   forwards, its reported total is the sum of its edge weights (property w, default 1), and no such
+   walk is lighter; PathNotFound is answered only when no such walk exists.
+   _partial: the model's fuel bound (2+2|E|)^2 is not proved sufficient (WFuel => True); the harness
+   compares the model with the real engine on every case, where WFuel would be a mismatch. Weights
+   are naturals: negative-weight errors and f64 rounding are outside the model. *)
+Theorem C18_weighted_path_real_and_optimal_partial : forall g from to,
+  match find_weighted_path_with gen_wp_neighbor g from to with
+  | WOk ns es total =>
+      node_exists g from = true /\ node_exists g to = true /\
+      exists steps, ns = from :: map nbr steps /\ es = map sid steps /\
+        rww (wstep g) from steps to /\ wsum steps = total /\
+        forall steps', rww (wstep g) from steps' to -> total <= wsum steps'
+  | WNotFound =>
+      node_exists g from = true /\ node_exists g to = true /\
+      forall steps, ~ rww (wstep g) from steps to
+  | WNoNode n => (node_exists g from = false /\ n = from) \/ (node_exists g from = true /\ node_exists g to = false /\ n = to)
+  | WErr => False
+  | WFuel => True
+  end.
+Proof. exact (weighted_path_correct gen_wp_neighbor gen_wp_spec). Qed.
+
+(* non-vacuity: parallel edges of different weight, a zero-weight undirected edge, a heavier direct edge *)
+Example C18_weighted_path_example :
+  let g := G [(1, None); (2, None); (3, None)]
+             [E 1 1 2 true 0 (Some 5) None; E 2 1 2 true 0 (Some 2) None; E 3 3 2 false 0 (Some 0) None; E 4 1 3 true 0 (Some 4) None] in
+  find_weighted_path_with gen_wp_neighbor g 1 3 = WOk [1; 2; 3] [2; 3] 2
+  /\ find_weighted_path_with gen_wp_neighbor g 3 1 = WNotFound.
+Proof. vm_compute. split; reflexivity. Qed.
+
+(* traverse (model: level-synchronous search; the code's queue order depends on HashSet iteration, so
+   results are compared as sets): the reported nodes are exactly the nodes within max_depth hops of
+   the start -- each hop an existing edge of the requested type that passes the edge filter, followed
+   in the requested direction -- that pass the node filter, plus the start itself. *)
+Theorem C18_traverse_exact : forall g dir depth ty fo start,
+  match traverse g (dir, depth, ty, fo) start with
+  | TOk _ ns =>
+      node_exists g start = true /\
+      forall v, In v ns <->
+        (v = start \/ node_ok g (match fo with Some f => f | None => no_filt end) v = true)
+        /\ exists n, (n <= N.to_nat depth)%nat
+                     /\ rnw (tstep g dir ty (match fo with Some f => f | None => no_filt end)) start n v
+  | TNoNode n => node_exists g start = false /\ n = start
+  | TErr => False
+  end.
+Proof. exact traverse_exact. Qed.
+
+Example C18_traverse_example :
+  let g := G [(1, Some 0); (2, Some 1); (3, Some 0); (4, Some 0)]
+             [E 1 1 2 true 0 None None; E 2 2 3 false 0 None None; E 3 4 3 true 0 None None] in
+  traverse g (0, 2, None, None) 1 = TOk true [1; 2; 3]
+  /\ traverse g (2, 3, None, Some (F [(0, 0)] [])) 1 = TOk true [1; 3; 4].
+Proof. vm_compute. split; reflexivity. Qed.
+
 Print Assumptions C18_find_path_real_and_shortest.
+Print Assumptions C18_variable_paths_exact.
+Print Assumptions C18_variable_paths_simple.
+Print Assumptions C18_weighted_path_real_and_optimal_partial.
+Print Assumptions C18_traverse_exact.
